@@ -12,7 +12,7 @@ namespace Rl4co.Gen
 def coordNum (minLoc maxLoc : Int) (p q : Nat) : Int := affNum minLoc maxLoc p q
 
 /-- `get_sampler(.., "center", low, high)` = `Uniform((high + low)/2, (high + low)/2)`: twice the constant value -/
-def centerTwice (lo hi : Int) : Int := hi + lo
+def centerTwice (lo hi : Int) : Int := if Params.genCenterIsMid then hi + lo else hi - lo   -- the form is extracted from the source
 
 /-! ### CVRP (cvrp/generator.py) -/
 
